@@ -3,8 +3,12 @@
 package server
 
 import (
+	"errors"
 	"net"
 	"sync"
+
+	"github.com/insomniacslk/dhcp/dhcpv4"
+	"github.com/insomniacslk/dhcp/dhcpv6"
 
 	"github.com/coredhcp/coredhcp/internal/vnd"
 	"golang.org/x/net/ipv4"
@@ -20,7 +24,19 @@ import (
 var (
 	readCalls int
 	readLen   int
+	readN     int // what the shim's ReadFrom reports as the datagram length
+	seenLen   int // length of the slice the handler goroutine hands to the parser
 )
+
+func stubSeen4(data []byte) (*dhcpv4.DHCPv4, error) {
+	seenLen = len(data)
+	return nil, errors.New("not parsed in this harness")
+}
+
+func stubSeen6(data []byte) (dhcpv6.DHCPv6, error) {
+	seenLen = len(data)
+	return nil, errors.New("not parsed in this harness")
+}
 
 func stubPoolGet(p *sync.Pool) any {
 	// lengths are case-split (the engine keeps slice bounds concrete): empty, a
@@ -37,7 +53,7 @@ func (l *listener4) ReadFrom(b []byte) (int, *ipv4.ControlMessage, net.Addr, err
 		return 0, nil, nil, net.ErrClosed
 	}
 	readLen = len(b)
-	return 0, nil, &net.UDPAddr{IP: net.IP{192, 0, 2, 1}, Port: 68}, nil
+	return readN, nil, &net.UDPAddr{IP: net.IP{192, 0, 2, 1}, Port: 68}, nil
 }
 
 func (l *listener6) ReadFrom(b []byte) (int, *ipv6.ControlMessage, net.Addr, error) {
@@ -46,7 +62,7 @@ func (l *listener6) ReadFrom(b []byte) (int, *ipv6.ControlMessage, net.Addr, err
 		return 0, nil, nil, net.ErrClosed
 	}
 	readLen = len(b)
-	return 0, nil, &net.UDPAddr{IP: net.ParseIP("2001:db8::1"), Port: 546}, nil
+	return readN, nil, &net.UDPAddr{IP: net.ParseIP("2001:db8::1"), Port: 546}, nil
 }
 
 func (l *listener4) LocalAddr() net.Addr { return &net.UDPAddr{} }
@@ -54,7 +70,8 @@ func (l *listener6) LocalAddr() net.Addr { return &net.UDPAddr{} }
 
 // VerifH_serve: one iteration of the real Serve loop on a recycled buffer of any length.
 func VerifH_serve() {
-	readCalls, readLen = 0, -1
+	readCalls, readLen, seenLen = 0, -1, -1
+	readN = []int{0, 1, 240, 576}[vnd.Pick("datagramlen", 0, 3)]
 	var err error
 	if vnd.Pick("proto", 0, 1) == 0 {
 		err = (&listener4{}).Serve()
@@ -65,4 +82,10 @@ func VerifH_serve() {
 	vnd.Assert(readCalls == 2, "C16 the receive loop keeps reading after a datagram")
 	vnd.Assert(err == nil, "C16 the receive loop ends cleanly when the socket is closed")
 	vnd.Assert(readLen == MaxDatagram, "C16 every receive gets a full-size buffer, whatever length the recycled buffer was left with")
+	if readLen < readN {
+		return
+	}
+	// the datagram is handled in its own goroutine, which gets exactly the bytes received
+	vnd.RunGoroutines()
+	vnd.Assert(seenLen == readN, "C16 the handler goroutine is given exactly the received datagram")
 }
